@@ -883,7 +883,7 @@ class Exec:
         Abstraction first: floating-point products/quotients are replaced by fresh variables constrained by
         sound lemmas (NaN/inf/zero/sign propagation, monotonicity for equal constant factors). The abstraction
         over-approximates, so `unsat` there is `unsat` here; anything else is decided on the exact formula."""
-        if s.opts.abstraction and s.has_fp_inputs and s.path_has_fp_arith(extra):
+        if s.opts.abstraction and bool(s.symvars) and s.path_has_fp_arith(extra):
             t0 = time.time()
             sol = z3.Solver(); sol.set('rlimit', min(5000, s.opts.query_timeout_ms) * RL_PER_MS)
             ab = s.abstractor
@@ -1019,7 +1019,13 @@ class Exec:
             else:
                 rf = s.check(nc); models[0] = s.last_model
             if rt == 'unknown' or rf == 'unknown':
-                raise EndPath('undecided', 'solver returned unknown at a branch in %s' % (s.callstack[-1] if s.callstack else '?'))
+                where = s.callstack[-1] if s.callstack else '?'
+                if 'sat' in (rt, rf) and s.ctl is not None:
+                    # one side is feasible, the other is not decided: report the undecided side as its own
+                    # record (it counts against the check's undecided budget) and go on with the feasible side
+                    s.side_record('undecided', 'solver returned unknown for one side of a branch in %s (the other side is explored)' % where)
+                    return [1] if rt == 'sat' else [0]
+                raise EndPath('undecided', 'solver returned unknown at a branch in %s' % where)
             alts = ([1] if rt == 'sat' else []) + ([0] if rf == 'sat' else [])
             if not alts: raise EndPath('infeasible')
             return alts
@@ -1100,6 +1106,11 @@ class Exec:
         if s.stdout: rec['stdout'] = s.stdout.decode('utf-8', 'replace')[-2000:]
         line = (json.dumps(rec) + '\n').encode()
         os.write(ctl.out_fd, line)
+
+    def side_record(s, status, info):
+        rec = {'case': s.case['id'] if s.case else None, 'path': str(s.path_id) + '.side%d' % len(s.path), 'status': status, 'info': info,
+               'instr': 0, 'queries': 0, 'solver_s': 0, 'unknowns': 0, 'covers': [], 'asserts': {}, 'violations': [], 'obs': [], 'fns': [], 'wall_s': 0, 'nbranch': len(s.path)}
+        os.write(s.ctl.out_fd, (json.dumps(rec) + '\n').encode())
 
     def finish(s, status, info=None):
         """end of this path: write the record, wait for forked children, leave the process"""
